@@ -3,7 +3,8 @@ import XPathV.Lemmas.AxesLemmas
 /-!
 # Walk lemmas for the non-sibling `followingQuery` / `precedingQuery`
 
-* the captured inner `descendantQuery` over a `contextQuery` (`inner_step`)
+* the captured inner `descendantQuery` over a `startQuery` (`inner_step`; the `PQ` machine over
+  `.context`, run with the start node in the place of `t.Current()`)
 * one-step unfoldings of `followRoots` (needs `WF`: the fuel `2·|d|+2` is justified by depth ≤ index)
   and `precRoots` (no `WF`), and the climbing loops `folClimb`, `precClimb`
 * the closure bodies `folIter`, `precIter` against `folCur`, `precCur`
@@ -470,44 +471,44 @@ theorem subtree_refs (a : AxisInfo) (m : Ref) :
     subtreeMatches d (test d cfg a) m = (descItems d cfg a true m).map (·.r) := by
   rw [descItems_refs]; simp [subtreeMatches]
 
-theorem folCur_eq (a : AxisInfo) (c node : Ref) (q : Option PQ) :
-    folCur d cfg a c node q =
+theorem folCur_eq (a : AxisInfo) (node : Ref) (q : Option PQ) :
+    folCur d cfg a node q =
       (match q with
         | none => []
-        | some q => (rem d cfg c q).map noLvl)
+        | some q => (rem d cfg node q).map noLvl)
       ++ (FR d node).flatMap (fun root => numbered (subtreeMatches d (test d cfg a) root)) := rfl
 
-theorem folCur_none (a : AxisInfo) (c node : Ref) :
-    folCur d cfg a c node none
+theorem folCur_none (a : AxisInfo) (node : Ref) :
+    folCur d cfg a node none
       = (FR d node).flatMap (fun root => numbered (subtreeMatches d (test d cfg a) root)) := by
   rw [folCur_eq]; rfl
 
-theorem folCur_some (a : AxisInfo) (c node : Ref) (q : PQ) :
-    folCur d cfg a c node (some q) = (rem d cfg c q).map noLvl
+theorem folCur_some (a : AxisInfo) (node : Ref) (q : PQ) :
+    folCur d cfg a node (some q) = (rem d cfg node q).map noLvl
       ++ (FR d node).flatMap (fun root => numbered (subtreeMatches d (test d cfg a) root)) := rfl
 
-/-- the closure with `q == nil`: climb to the next root, create the inner query, pull it; roots
-whose subtree has no match are skipped -/
-theorem folIter_none_spec (wf : WF d) (a : AxisInfo) : ∀ (roots : List Ref) (node cur : Ref), Good d node → Good d cur →
+/-- the closure with `q == nil`: climb to the next root, create the inner query (its `startQuery`
+holds the root), pull it; roots whose subtree has no match are skipped -/
+theorem folIter_none_spec (wf : WF d) (a : AxisInfo) : ∀ (roots : List Ref) (node : Ref), Good d node →
     FR d node = roots →
-    (∃ j k' p' c' f0, (∀ f, f0 ≤ f → folIter d cfg a f node none cur = (.yield (j, k', p'), c')) ∧
-      (Good d k'.1 ∧ innerOK d k'.2) ∧ Good d c' ∧ Good d j ∧
+    (∃ j k' p' f0, (∀ f, f0 ≤ f → folIter d cfg a f node none = .yield (j, k', p')) ∧
+      (Good d k'.1 ∧ innerOK d k'.2) ∧ Good d j ∧
       roots.flatMap (fun root => numbered (subtreeMatches d (test d cfg a) root))
-        = ⟨j, p', 0⟩ :: folCur d cfg a c' k'.1 k'.2) ∨
-    (∃ c' f0, (∀ f, f0 ≤ f → folIter d cfg a f node none cur = (.done, c')) ∧ Good d c' ∧
+        = ⟨j, p', 0⟩ :: folCur d cfg a k'.1 k'.2) ∨
+    (∃ f0, (∀ f, f0 ≤ f → folIter d cfg a f node none = .done) ∧
       roots.flatMap (fun root => numbered (subtreeMatches d (test d cfg a) root)) = []) := by
   intro roots
   induction roots with
   | nil =>
-    intro node cur hgn hgc hfr
+    intro node hgn hfr
     obtain ⟨f0, h0⟩ := folClimb_spec d wf _ node hgn (Nat.le_refl _)
-    refine Or.inr ⟨cur, f0 + 1, fun f hf => ?_, hgc, rfl⟩
+    refine Or.inr ⟨f0 + 1, fun f hf => ?_, rfl⟩
     obtain ⟨f', rfl⟩ : ∃ f', f = f' + 1 := ⟨f - 1, by omega⟩
     have := h0 f' (by omega)
     rw [hfr] at this
     simp only [folIter, this]
   | cons m rest ih =>
-    intro node cur hgn hgc hfr
+    intro node hgn hfr
     obtain ⟨f0, h0⟩ := folClimb_spec d wf _ node hgn (Nat.le_refl _)
     have h0' : ∀ f, f0 ≤ f → folClimb d f node = .yield m ∧ FR d m = rest ∧ Good d m := by
       intro f hf; have := h0 f hf; rw [hfr] at this; exact this
@@ -518,8 +519,8 @@ theorem folIter_none_spec (wf : WF d) (a : AxisInfo) : ∀ (roots : List Ref) (n
     | nil =>
       rw [hits] at hsel
       have hF : numbered (subtreeMatches d (test d cfg a) m) = [] := by rw [subtree_noLvl, hits]; rfl
-      rcases ih m m hgm hgm hfm with ⟨j, k', p', c', f2, hy, hk', hgc', hgj, hR⟩ | ⟨c', f2, hy, hgc', hR⟩
-      · refine Or.inl ⟨j, k', p', c', max f0 (max f1 f2) + 2, fun f hf => ?_, hk', hgc', hgj, ?_⟩
+      rcases ih m hgm hfm with ⟨j, k', p', f2, hy, hk', hgj, hR⟩ | ⟨f2, hy, hR⟩
+      · refine Or.inl ⟨j, k', p', max f0 (max f1 f2) + 2, fun f hf => ?_, hk', hgj, ?_⟩
         · obtain ⟨f', rfl⟩ : ∃ f', f = f' + 2 := ⟨f - 2, by omega⟩
           rw [folIter, (h0' (f'+1) (by omega)).1]
           simp only
@@ -527,7 +528,7 @@ theorem folIter_none_spec (wf : WF d) (a : AxisInfo) : ∀ (roots : List Ref) (n
           simp only [headRes]
           exact hy f' (by omega)
         · simp only [List.flatMap_cons, hF, List.nil_append]; exact hR
-      · refine Or.inr ⟨c', max f0 (max f1 f2) + 2, fun f hf => ?_, hgc', ?_⟩
+      · refine Or.inr ⟨max f0 (max f1 f2) + 2, fun f hf => ?_, ?_⟩
         · obtain ⟨f', rfl⟩ : ∃ f', f = f' + 2 := ⟨f - 2, by omega⟩
           rw [folIter, (h0' (f'+1) (by omega)).1]
           simp only
@@ -538,7 +539,7 @@ theorem folIter_none_spec (wf : WF d) (a : AxisInfo) : ∀ (roots : List Ref) (n
     | cons x xs =>
       rw [hits] at hsel hrem hpos
       obtain ⟨hp1, hgx⟩ := hpos x xs rfl
-      refine Or.inl ⟨x.r, (m, some q'), x.pos, m, max f0 f1 + 2, fun f hf => ?_, ⟨hgm, hok⟩, hgm, hgx, ?_⟩
+      refine Or.inl ⟨x.r, (m, some q'), x.pos, max f0 f1 + 2, fun f hf => ?_, ⟨hgm, hok⟩, hgx, ?_⟩
       · obtain ⟨f', rfl⟩ : ∃ f', f = f' + 2 := ⟨f - 2, by omega⟩
         rw [folIter, (h0' (f'+1) (by omega)).1]
         simp only
@@ -548,25 +549,25 @@ theorem folIter_none_spec (wf : WF d) (a : AxisInfo) : ∀ (roots : List Ref) (n
         simp only [List.flatMap_cons, subtree_noLvl d cfg a m, hits, List.map_cons, List.tail_cons, List.cons_append,
           noLvl]
 
-/-- `f.iterator()` of the non-sibling `followingQuery` -/
+/-- `f.iterator()` of the non-sibling `followingQuery`; `t.Current()` (`c`) is not touched -/
 theorem fol_body (wf : WF d) (a : AxisInfo) (k : Ref × Option PQ) (p : Nat) (c : Ref)
     (hk : Good d k.1 ∧ innerInv d k.2) (hg : Good d c) :
-    (∃ j k' p' c' f0, (∀ f, f0 ≤ f → folCall d cfg a false f k p c = (.yield (j, k', p'), c')) ∧
+    (∃ j k' p' c' f0, (∀ f, f0 ≤ f → folBody d cfg a false f k p c = (.yield (j, k', p'), c')) ∧
       (Good d k'.1 ∧ innerOK d k'.2) ∧ Good d c' ∧ Good d j ∧
       folCurOf d cfg a false k p c = ⟨j, p', 0⟩ :: folCurOf d cfg a false k' p' c') ∨
-    (∃ c' f0, (∀ f, f0 ≤ f → folCall d cfg a false f k p c = (.done, c')) ∧ Good d c' ∧
+    (∃ c' f0, (∀ f, f0 ≤ f → folBody d cfg a false f k p c = (.done, c')) ∧ Good d c' ∧
       folCurOf d cfg a false k p c = []) := by
   obtain ⟨node, q⟩ := k
-  simp only [folCall, folCurOf, Bool.false_eq_true, if_false]
+  simp only [folBody, folCall, folCurOf, Bool.false_eq_true, if_false]
   cases q with
   | none =>
-    rcases folIter_none_spec d cfg wf a _ node c hk.1 hg rfl with ⟨j, k', p', c', f0, hy, hk', hgc', hgj, hR⟩ |
-      ⟨c', f0, hy, hgc', hR⟩
-    · exact Or.inl ⟨j, k', p', c', f0, hy, hk', hgc', hgj, by rw [folCur_none]; exact hR⟩
-    · exact Or.inr ⟨c', f0, hy, hgc', by rw [folCur_none]; exact hR⟩
+    rcases folIter_none_spec d cfg wf a _ node hk.1 rfl with ⟨j, k', p', f0, hy, hk', hgj, hR⟩ | ⟨f0, hy, hR⟩
+    · exact Or.inl ⟨j, k', p', c, f0, fun f hf => by rw [hy f hf], hk', hg, hgj, by rw [folCur_none]; exact hR⟩
+    · exact Or.inr ⟨c, f0, fun f hf => by rw [hy f hf], hg, by rw [folCur_none]; exact hR⟩
   | some q =>
-    obtain ⟨q', f1, hsel, hok, hrem, hpos⟩ := inner_step d cfg q hk.2 c hg
-    cases hr : rem d cfg c q with
+    -- the captured `q` is pulled with its start node `node`
+    obtain ⟨q', f1, hsel, hok, hrem, hpos⟩ := inner_step d cfg q hk.2 node hk.1
+    cases hr : rem d cfg node q with
     | cons x xs =>
       rw [hr] at hsel hrem
       obtain ⟨hp1, hgx⟩ := hpos x xs hr
@@ -574,40 +575,39 @@ theorem fol_body (wf : WF d) (a : AxisInfo) (k : Ref × Option PQ) (p : Nat) (c 
       · obtain ⟨f', rfl⟩ : ∃ f', f = f' + 1 := ⟨f - 1, by omega⟩
         rw [folIter, hsel f' (by omega)]
         simp only [headRes, hp1]
-      · rw [folCur_some, folCur_some, hr, hrem c]
+      · rw [folCur_some, folCur_some, hr, hrem node]
         simp only [List.map_cons, List.tail_cons, List.cons_append, noLvl]
     | nil =>
       rw [hr] at hsel
-      rcases folIter_none_spec d cfg wf a _ node c hk.1 hg rfl with ⟨j, k', p', c', f0, hy, hk', hgc', hgj, hR⟩ |
-        ⟨c', f0, hy, hgc', hR⟩
-      · refine Or.inl ⟨j, k', p', c', max f0 f1 + 1, fun f hf => ?_, hk', hgc', hgj, ?_⟩
+      rcases folIter_none_spec d cfg wf a _ node hk.1 rfl with ⟨j, k', p', f0, hy, hk', hgj, hR⟩ | ⟨f0, hy, hR⟩
+      · refine Or.inl ⟨j, k', p', c, max f0 f1 + 1, fun f hf => ?_, hk', hg, hgj, ?_⟩
         · obtain ⟨f', rfl⟩ : ∃ f', f = f' + 1 := ⟨f - 1, by omega⟩
           rw [folIter, hsel f' (by omega)]
           simp only [headRes]
-          exact hy f' (by omega)
+          rw [hy f' (by omega)]
         · rw [folCur_some, hr]; exact hR
-      · refine Or.inr ⟨c', max f0 f1 + 1, fun f hf => ?_, hgc', ?_⟩
+      · refine Or.inr ⟨c, max f0 f1 + 1, fun f hf => ?_, hg, ?_⟩
         · obtain ⟨f', rfl⟩ : ∃ f', f = f' + 1 := ⟨f - 1, by omega⟩
           rw [folIter, hsel f' (by omega)]
           simp only [headRes]
-          exact hy f' (by omega)
+          rw [hy f' (by omega)]
         · rw [folCur_some, hr]; exact hR
 
 /-- a new input node of the non-sibling `followingQuery`: the fresh closure's stream is
 `followingItems` of the sequence model -/
-theorem fol_start (wf : WF d) (a : AxisInfo) (x c : Ref) (hgx : Good d x) (hgc : Good d c) :
-    (Good d (folStart d a false x c).1.1 ∧ innerInv d (folStart d a false x c).1.2) ∧ Good d (folStart d a false x c).2 ∧
-      folCurOf d cfg a false (folStart d a false x c).1 0 (folStart d a false x c).2 = folContrib d cfg a false x := by
+theorem fol_start (wf : WF d) (a : AxisInfo) (x c : Ref) (hgx : Good d x) :
+    (Good d (folStart d a false x).1 ∧ innerInv d (folStart d a false x).2) ∧
+      folCurOf d cfg a false (folStart d a false x) 0 c = folContrib d cfg a false x := by
   cases x with
   | node i =>
     simp only [folStart, Bool.false_eq_true, if_false, Ref.isAttr, folCurOf, folContrib, followingItems]
-    exact ⟨⟨hgx, Or.inl trivial⟩, hgc, by rw [folCur_none]; rfl⟩
+    exact ⟨⟨hgx, Or.inl trivial⟩, by rw [folCur_none]; rfl⟩
   | attr i k =>
     have hfr : FR d (.attr i k) = FR d (.node i) := by
       rw [FR_unfold d wf hgx]; rfl
     simp only [folStart, Bool.false_eq_true, if_false, Ref.isAttr, if_true, Nav.moveParent, folCurOf, folContrib,
       followingItems, Ref.idx]
-    refine ⟨⟨hgx, Or.inr ⟨a, false, rfl⟩⟩, hgx, ?_⟩
+    refine ⟨⟨hgx, Or.inr ⟨a, false, rfl⟩⟩, ?_⟩
     rw [folCur_some, rem_innerDesc, descItems_noLvl]
     simp only [Bool.false_eq_true, if_false, List.nil_append]
     show _ ++ (FR d (.node i)).flatMap _ = _ ++ (FR d (.attr i k)).flatMap _
@@ -615,21 +615,21 @@ theorem fol_start (wf : WF d) (a : AxisInfo) (x c : Ref) (hgx : Good d x) (hgc :
 
 /-! ## The non-sibling `precedingQuery` closure -/
 
-theorem precCur_eq (a : AxisInfo) (c node : Ref) (q : Option PQ) (pos : Nat) :
-    precCur d cfg a c node q pos =
+theorem precCur_eq (a : AxisInfo) (node : Ref) (q : Option PQ) (pos : Nat) :
+    precCur d cfg a node q pos =
       (match q with
         | none => []
-        | some q => numFrom pos ((rem d cfg c q).map (·.r)))
+        | some q => numFrom pos ((rem d cfg node q).map (·.r)))
       ++ precTail d (test d cfg a) (PR d node false)
-          (pos + (match q with | none => 0 | some q => (rem d cfg c q).length)) := rfl
+          (pos + (match q with | none => 0 | some q => (rem d cfg node q).length)) := rfl
 
-theorem precCur_none (a : AxisInfo) (c node : Ref) (pos : Nat) :
-    precCur d cfg a c node none pos = precTail d (test d cfg a) (PR d node false) pos := by
+theorem precCur_none (a : AxisInfo) (node : Ref) (pos : Nat) :
+    precCur d cfg a node none pos = precTail d (test d cfg a) (PR d node false) pos := by
   rw [precCur_eq]; rfl
 
-theorem precCur_some (a : AxisInfo) (c node : Ref) (q : PQ) (pos : Nat) :
-    precCur d cfg a c node (some q) pos = numFrom pos ((rem d cfg c q).map (·.r))
-      ++ precTail d (test d cfg a) (PR d node false) (pos + (rem d cfg c q).length) := rfl
+theorem precCur_some (a : AxisInfo) (node : Ref) (q : PQ) (pos : Nat) :
+    precCur d cfg a node (some q) pos = numFrom pos ((rem d cfg node q).map (·.r))
+      ++ precTail d (test d cfg a) (PR d node false) (pos + (rem d cfg node q).length) := rfl
 
 theorem numFrom_append : ∀ (l1 l2 : List Ref) (k : Nat), numFrom k (l1 ++ l2) = numFrom k l1 ++ numFrom (k + l1.length) l2
   | [], l2, k => by simp [numFrom]
@@ -637,26 +637,26 @@ theorem numFrom_append : ∀ (l1 l2 : List Ref) (k : Nat), numFrom k (l1 ++ l2) 
     simp only [List.cons_append, numFrom, numFrom_append xs l2 (k+1), List.length_cons]
     congr 3; omega
 
-theorem precIter_none_spec (a : AxisInfo) : ∀ (roots : List (Ref × Bool)) (node : Ref) (b : Bool) (pos : Nat) (cur : Ref),
-    Good d node → Good d cur → (b = true → pos = 0) → PR d node b = roots →
-    (∃ j k' p' c' f0, (∀ f, f0 ≤ f → precIter d cfg a f node none pos cur = (.yield (j, k', p'), c')) ∧
-      (Good d k'.1 ∧ innerOK d k'.2) ∧ Good d c' ∧ Good d j ∧
-      precTail d (test d cfg a) roots pos = ⟨j, p', 0⟩ :: precCur d cfg a c' k'.1 k'.2 p') ∨
-    (∃ c' f0, (∀ f, f0 ≤ f → precIter d cfg a f node none pos cur = (.done, c')) ∧ Good d c' ∧
+theorem precIter_none_spec (a : AxisInfo) : ∀ (roots : List (Ref × Bool)) (node : Ref) (b : Bool) (pos : Nat),
+    Good d node → (b = true → pos = 0) → PR d node b = roots →
+    (∃ j k' p' f0, (∀ f, f0 ≤ f → precIter d cfg a f node none pos = .yield (j, k', p')) ∧
+      (Good d k'.1 ∧ innerOK d k'.2) ∧ Good d j ∧
+      precTail d (test d cfg a) roots pos = ⟨j, p', 0⟩ :: precCur d cfg a k'.1 k'.2 p') ∨
+    (∃ f0, (∀ f, f0 ≤ f → precIter d cfg a f node none pos = .done) ∧
       precTail d (test d cfg a) roots pos = []) := by
   intro roots
   induction roots with
   | nil =>
-    intro node b pos cur hgn hgc hb hpr
+    intro node b pos hgn hb hpr
     obtain ⟨f0, h0⟩ := precClimb_spec d _ node b pos hgn (Nat.le_refl _) hb
-    refine Or.inr ⟨cur, f0 + 1, fun f hf => ?_, hgc, rfl⟩
+    refine Or.inr ⟨f0 + 1, fun f hf => ?_, rfl⟩
     obtain ⟨f', rfl⟩ : ∃ f', f = f' + 1 := ⟨f - 1, by omega⟩
     have := h0 f' (by omega)
     rw [hpr] at this
     simp only [precIter, this]
   | cons mf rest ih =>
     obtain ⟨m, fl⟩ := mf
-    intro node b pos cur hgn hgc hb hpr
+    intro node b pos hgn hb hpr
     obtain ⟨f0, h0⟩ := precClimb_spec d _ node b pos hgn (Nat.le_refl _) hb
     have h0' : ∀ f, f0 ≤ f → precClimb d f node pos = .yield (m, if fl then 0 else pos) ∧ PR d m false = rest ∧
         Good d m ∧ (b = true → fl = true) := by
@@ -668,9 +668,9 @@ theorem precIter_none_spec (a : AxisInfo) : ∀ (roots : List (Ref × Bool)) (no
     | nil =>
       rw [hits] at hsel
       have hF : subtreeMatches d (test d cfg a) m = [] := by rw [subtree_refs, hits]; rfl
-      rcases ih m false (if fl then 0 else pos) m hgm hgm (fun h => by cases h) hpm with
-        ⟨j, k', p', c', f2, hy, hk', hgc', hgj, hR⟩ | ⟨c', f2, hy, hgc', hR⟩
-      · refine Or.inl ⟨j, k', p', c', max f0 (max f1 f2) + 2, fun f hf => ?_, hk', hgc', hgj, ?_⟩
+      rcases ih m false (if fl then 0 else pos) hgm (fun h => by cases h) hpm with
+        ⟨j, k', p', f2, hy, hk', hgj, hR⟩ | ⟨f2, hy, hR⟩
+      · refine Or.inl ⟨j, k', p', max f0 (max f1 f2) + 2, fun f hf => ?_, hk', hgj, ?_⟩
         · obtain ⟨f', rfl⟩ : ∃ f', f = f' + 2 := ⟨f - 2, by omega⟩
           rw [precIter, (h0' (f'+1) (by omega)).1]
           simp only
@@ -678,7 +678,7 @@ theorem precIter_none_spec (a : AxisInfo) : ∀ (roots : List (Ref × Bool)) (no
           simp only [headRes]
           exact hy f' (by omega)
         · simp only [precTail, hF, numFrom, List.nil_append, List.length_nil, Nat.add_zero]; exact hR
-      · refine Or.inr ⟨c', max f0 (max f1 f2) + 2, fun f hf => ?_, hgc', ?_⟩
+      · refine Or.inr ⟨max f0 (max f1 f2) + 2, fun f hf => ?_, ?_⟩
         · obtain ⟨f', rfl⟩ : ∃ f', f = f' + 2 := ⟨f - 2, by omega⟩
           rw [precIter, (h0' (f'+1) (by omega)).1]
           simp only
@@ -689,7 +689,7 @@ theorem precIter_none_spec (a : AxisInfo) : ∀ (roots : List (Ref × Bool)) (no
     | cons x xs =>
       rw [hits] at hsel hrem hpos
       obtain ⟨_, hgx⟩ := hpos x xs rfl
-      refine Or.inl ⟨x.r, (m, some q'), (if fl then 0 else pos) + 1, m, max f0 f1 + 2, fun f hf => ?_, ⟨hgm, hok⟩, hgm,
+      refine Or.inl ⟨x.r, (m, some q'), (if fl then 0 else pos) + 1, max f0 f1 + 2, fun f hf => ?_, ⟨hgm, hok⟩,
         hgx, ?_⟩
       · obtain ⟨f', rfl⟩ : ∃ f', f = f' + 2 := ⟨f - 2, by omega⟩
         rw [precIter, (h0' (f'+1) (by omega)).1]
@@ -701,25 +701,25 @@ theorem precIter_none_spec (a : AxisInfo) : ∀ (roots : List (Ref × Bool)) (no
           List.length_cons, List.length_map]
         congr 3; omega
 
-/-- `p.iterator()` of the non-sibling `precedingQuery` -/
+/-- `p.iterator()` of the non-sibling `precedingQuery`; `t.Current()` (`c`) is not touched -/
 theorem prec_body (a : AxisInfo) (k : Ref × Option PQ) (p : Nat) (c : Ref)
     (hk : Good d k.1 ∧ innerInv d k.2) (hg : Good d c) :
-    (∃ j k' p' c' f0, (∀ f, f0 ≤ f → precCall d cfg a false f k p c = (.yield (j, k', p'), c')) ∧
+    (∃ j k' p' c' f0, (∀ f, f0 ≤ f → precBody d cfg a false f k p c = (.yield (j, k', p'), c')) ∧
       (Good d k'.1 ∧ innerOK d k'.2) ∧ Good d c' ∧ Good d j ∧
       precCurOf d cfg a false k p c = ⟨j, p', 0⟩ :: precCurOf d cfg a false k' p' c') ∨
-    (∃ c' f0, (∀ f, f0 ≤ f → precCall d cfg a false f k p c = (.done, c')) ∧ Good d c' ∧
+    (∃ c' f0, (∀ f, f0 ≤ f → precBody d cfg a false f k p c = (.done, c')) ∧ Good d c' ∧
       precCurOf d cfg a false k p c = []) := by
   obtain ⟨node, q⟩ := k
-  simp only [precCall, precCurOf, Bool.false_eq_true, if_false]
+  simp only [precBody, precCall, precCurOf, Bool.false_eq_true, if_false]
   cases q with
   | none =>
-    rcases precIter_none_spec d cfg a _ node false p c hk.1 hg (fun h => by cases h) rfl with
-      ⟨j, k', p', c', f0, hy, hk', hgc', hgj, hR⟩ | ⟨c', f0, hy, hgc', hR⟩
-    · exact Or.inl ⟨j, k', p', c', f0, hy, hk', hgc', hgj, by rw [precCur_none]; exact hR⟩
-    · exact Or.inr ⟨c', f0, hy, hgc', by rw [precCur_none]; exact hR⟩
+    rcases precIter_none_spec d cfg a _ node false p hk.1 (fun h => by cases h) rfl with
+      ⟨j, k', p', f0, hy, hk', hgj, hR⟩ | ⟨f0, hy, hR⟩
+    · exact Or.inl ⟨j, k', p', c, f0, fun f hf => by rw [hy f hf], hk', hg, hgj, by rw [precCur_none]; exact hR⟩
+    · exact Or.inr ⟨c, f0, fun f hf => by rw [hy f hf], hg, by rw [precCur_none]; exact hR⟩
   | some q =>
-    obtain ⟨q', f1, hsel, hok, hrem, hpos⟩ := inner_step d cfg q hk.2 c hg
-    cases hr : rem d cfg c q with
+    obtain ⟨q', f1, hsel, hok, hrem, hpos⟩ := inner_step d cfg q hk.2 node hk.1
+    cases hr : rem d cfg node q with
     | cons x xs =>
       rw [hr] at hsel hrem
       obtain ⟨_, hgx⟩ := hpos x xs hr
@@ -727,24 +727,24 @@ theorem prec_body (a : AxisInfo) (k : Ref × Option PQ) (p : Nat) (c : Ref)
       · obtain ⟨f', rfl⟩ : ∃ f', f = f' + 1 := ⟨f - 1, by omega⟩
         rw [precIter, hsel f' (by omega)]
         simp only [headRes]
-      · rw [precCur_some, precCur_some, hr, hrem c]
+      · rw [precCur_some, precCur_some, hr, hrem node]
         simp only [List.map_cons, numFrom, List.tail_cons, List.cons_append, List.length_cons]
         congr 3; omega
     | nil =>
       rw [hr] at hsel
-      rcases precIter_none_spec d cfg a _ node false p c hk.1 hg (fun h => by cases h) rfl with
-        ⟨j, k', p', c', f0, hy, hk', hgc', hgj, hR⟩ | ⟨c', f0, hy, hgc', hR⟩
-      · refine Or.inl ⟨j, k', p', c', max f0 f1 + 1, fun f hf => ?_, hk', hgc', hgj, ?_⟩
+      rcases precIter_none_spec d cfg a _ node false p hk.1 (fun h => by cases h) rfl with
+        ⟨j, k', p', f0, hy, hk', hgj, hR⟩ | ⟨f0, hy, hR⟩
+      · refine Or.inl ⟨j, k', p', c, max f0 f1 + 1, fun f hf => ?_, hk', hg, hgj, ?_⟩
         · obtain ⟨f', rfl⟩ : ∃ f', f = f' + 1 := ⟨f - 1, by omega⟩
           rw [precIter, hsel f' (by omega)]
           simp only [headRes]
-          exact hy f' (by omega)
+          rw [hy f' (by omega)]
         · rw [precCur_some, hr]; simpa [numFrom] using hR
-      · refine Or.inr ⟨c', max f0 f1 + 1, fun f hf => ?_, hgc', ?_⟩
+      · refine Or.inr ⟨c, max f0 f1 + 1, fun f hf => ?_, hg, ?_⟩
         · obtain ⟨f', rfl⟩ : ∃ f', f = f' + 1 := ⟨f - 1, by omega⟩
           rw [precIter, hsel f' (by omega)]
           simp only [headRes]
-          exact hy f' (by omega)
+          rw [hy f' (by omega)]
         · rw [precCur_some, hr]; simpa [numFrom] using hR
 
 theorem zipIdx_cnt (cnt : Nat) : ∀ (l : List Ref) (j : Nat),
